@@ -5,7 +5,8 @@ package main
 // (internal/host).  The observation is the host-visible trace of every step; the Lean driver runs the
 // executor-protocol acceptor (Verif.Model.Exec) on each trace.
 //
-// op:  exec <engine> { <kind> <nsigners> <limit> <source> }*
+// op:  exec <engine> { <kind> <nsigners> <limit> <source> }*          (limit = computation limit)
+//      memsweep <engine> <nsigners> <setup | -> <source>               (memory-limit sweep, see c24MemSweep)
 //      kind = tx | script | call (source = "<address>.<Contract>.<function>")
 // obs: trace of step 1 | trace of step 2 | ...      (events separated by single spaces)
 //
@@ -338,6 +339,7 @@ func (g *c24Gen) limit() string {
 }
 
 func c24GenStream(c *hx.Ctx) {
+	c24GenSweeps(c)
 	for i := 0; i < c.N; i++ {
 		g := &c24Gen{r: c.Rng.Fork()}
 		engine := []string{"interp", "vm"}[i%2]
@@ -388,7 +390,128 @@ func c24GenStream(c *hx.Ctx) {
 	}
 }
 
+// ---- memory-limit sweeps
+//
+// op:  memsweep <engine> <nsigners> <setup transaction | -> <transaction>
+// The setup transaction (if any) runs without limits and is committed.  The transaction is run once with a
+// recording memory gauge (the accumulated amount after every MeterMemory call of the run, the commit's own
+// metering included), then again — each time on the same starting state — under a memory limit that is
+// crossed exactly at one metering call: at every one of the last 80 calls (the commit window) and at 30
+// calls spread over the rest.
+// obs: the traces of the limited runs, separated by ` | ` (each judged as one transaction)
+
+var c24SweepFixed = [][3]string{
+	{"1", "-", `transaction { prepare(signer: auth(Storage) &Account) { signer.storage.save([[1, 2, 3], [4, 5, 6]], to: /storage/xs); signer.storage.save("hello", to: /storage/s) } }`},
+	{"1", `transaction { prepare(signer: auth(Storage) &Account) { signer.storage.save([[1, 2, 3], [4, 5, 6]], to: /storage/xs); signer.storage.save("hello", to: /storage/s) } }`,
+		`transaction { prepare(signer: auth(Storage) &Account) { let xs = signer.storage.borrow<auth(Mutate) &[[Int]]>(from: /storage/xs)!; xs.append([7, 8, 9]); let s = signer.storage.load<String>(from: /storage/s)!; signer.storage.save(s.concat(" world"), to: /storage/s2) } }`},
+	{"2", "-", `transaction { prepare(a: auth(Storage) &Account, b: auth(Storage) &Account) { a.storage.save({"k": [1, 2]}, to: /storage/d); b.storage.save(5, to: /storage/n) } }`},
+	{"1", "-", `transaction { prepare(a: ` + c24AcctAuth + `) { a.contracts.add(name: "C", code: @C1@.utf8) } }`},
+	{"1", `transaction { prepare(a: ` + c24AcctAuth + `) { a.contracts.add(name: "C", code: @C1@.utf8) } }`,
+		`import C from 0x1  transaction { prepare(a: ` + c24AcctAuth + `) { C.inc(); C.put("k", 3); a.storage.save(<- C.mk(4), to: /storage/r0) } execute { C.inc() } }`},
+}
+
+func c24GenSweeps(c *hx.Ctx) {
+	for _, engine := range []string{"interp", "vm"} {
+		for _, f := range c24SweepFixed {
+			c.Emit("memsweep", engine, f[0], f[1], f[2])
+		}
+	}
+	k := 6
+	if c.Thorough() {
+		k = 60
+	}
+	for i := 0; i < k; i++ {
+		g := &c24Gen{r: c.Rng.Fork()}
+		// (without the temporary commit of storage.used / storage.capacity: that is the known finding of the
+		// exec operations, not the subject of the sweep)
+		noFlush := func() (int, string) {
+			for {
+				ns, src := g.tx(false)
+				if !strings.Contains(src, ".storage.used") && !strings.Contains(src, ".storage.capacity") {
+					return ns, src
+				}
+			}
+		}
+		_, setup := noFlush()
+		ns, src := noFlush()
+		if g.r.Bool() {
+			setup = "-"
+		}
+		c.Emit("memsweep", []string{"interp", "vm"}[i%2], strconv.Itoa(max(ns, 1)), setup, src)
+	}
+}
+
+func c24SweepRun(w *host.World, ns int, src string, useVM bool, memLimit uint64, record bool) (*host.Host, *host.Result) {
+	wc := w.Clone()
+	wc.Signers = nil
+	for j := 0; j < ns; j++ {
+		wc.Signers = append(wc.Signers, common.Address{0, 0, 0, 0, 0, 0, 0, byte(j + 1)})
+	}
+	h := host.New(wc)
+	h.MemLimit, h.RecordMem = memLimit, record
+	src = strings.ReplaceAll(src, "@C1@", c24Quote(c24ContractC))
+	return h, host.Run(h, "tx", src, nil, useVM, 9)
+}
+
+func c24MemSweep(op []string) string {
+	if len(op) != 5 {
+		return "bad-op"
+	}
+	useVM := op[1] == "vm"
+	ns, _ := strconv.Atoi(op[2])
+	w := host.NewWorld()
+	if op[3] != "-" {
+		// as many signers as the setup's prepare block has parameters
+		setupSigners := 1
+		if i := strings.Index(op[3], "prepare("); i >= 0 {
+			if j := strings.Index(op[3][i:], ") {"); j >= 0 {
+				setupSigners = strings.Count(op[3][i:i+j], "&Account")
+			}
+		}
+		h, res := c24SweepRun(w, setupSigners, op[3], useVM, 0, false)
+		if !res.OK() {
+			return "setup-failed"
+		}
+		w = h.Base // (Run committed the successful setup into the clone)
+	}
+	clean, res := c24SweepRun(w, ns, op[4], useVM, 0, true)
+	if !res.OK() {
+		return "clean-failed"
+	}
+	totals := clean.MemTotals
+	pick := map[int]bool{}
+	for i := len(totals) - 80; i < len(totals); i++ {
+		if i >= 0 {
+			pick[i] = true
+		}
+	}
+	for j := 0; j < 30; j++ {
+		pick[j*len(totals)/30] = true
+	}
+	seen := map[uint64]bool{}
+	var out []string
+	for i := 0; i < len(totals); i++ {
+		if !pick[i] || totals[i] == 0 || seen[totals[i]-1] {
+			continue
+		}
+		limit := totals[i] - 1 // the i-th metering call is the first to exceed it
+		if limit == 0 {
+			continue
+		}
+		seen[limit] = true
+		h, _ := c24SweepRun(w, ns, op[4], useVM, limit, false)
+		out = append(out, strings.Join(h.Trace, " "))
+	}
+	if len(out) == 0 {
+		return "no-metering"
+	}
+	return strings.Join(out, " | ")
+}
+
 func c24Exec(op []string) string {
+	if len(op) > 0 && op[0] == "memsweep" {
+		return c24MemSweep(op)
+	}
 	if len(op) < 2 || op[0] != "exec" || (len(op)-2)%4 != 0 {
 		return "bad-op"
 	}
